@@ -636,6 +636,8 @@ func (p *impPkg) translateFunc(name string) string {
 	return b.String()
 }
 
+var famSigs = map[string]string{} // "<ns>.<fn>" -> Lean type of the translated method of a group-level target
+
 // impOnly restricts runImp to one sub-pass (the basename of the output file; all Exp_<pkg> files form the sub-pass "Exp")
 var impOnly string
 
@@ -797,6 +799,15 @@ func runImp() {
 		}
 		fmt.Fprintf(&b, "end GV.Gen.Imp.%s\n", tg.ns)
 		famInfos[tg.ns] = p.loopInfos
+		for _, fn := range tg.funcs {
+			if sig := p.grpTranslated[fn]; sig != nil && tg.grp != "" {
+				ty := "{G : Type} → (G → G → G) → (G → G) → (G → G) → G → G → G"
+				for _, t := range sig.params {
+					ty += " → " + p.ltyA(t, false)
+				}
+				famSigs[tg.ns+"."+fn] = ty + " → G"
+			}
+		}
 		writeFile(tg.out, b.String())
 		dieHook = nil
 	}
